@@ -196,10 +196,12 @@ pub fn run(run: &Run) {
                 if k % 61 != 0 || (k / 61) % n != tid {
                     continue;
                 }
-                for reps in [254usize, 255, 256, 257, 258, 511, 512, 513] {
+                for (ri, reps) in [254usize, 255, 256, 257, 258, 511, 512, 513, 255, 256, 257].into_iter().enumerate() {
                     for _ in 0..reps {
                         std::hint::black_box(idc.get_value_from_codepoint(cp));
-                        std::hint::black_box(ffc.get_value_from_codepoint(cp));
+                        if ri < 8 {
+                            std::hint::black_box(ffc.get_value_from_codepoint(cp)); // the last three rounds use one class only
+                        }
                     }
                     l.cases += 1;
                     l.evals_n(2 * reps as u64);
